@@ -22,8 +22,13 @@ def check_shape(t, shape, kind, maxstop, maxhide, only=None):
         for stopset in core.powerset(sub, maxstop):
             sset = frozenset(stopset)
             sids = frozenset(id(nodes[v]) for v in stopset)
+            if (start + len(stopset)) % 2 == 0:
+                # stop counts on the path from the START node downwards only: in half of the cases the predicate is also
+                # true for every proper ancestor of the start node, which must not make any difference
+                sids = sids | frozenset(id(nodes[a]) for a in m.ancestors(start))
+                t.c["stop_true_for_ancestors_of_start"] += 1 if m.par[start] is not None else 0
             # predicates may answer with any truthy / falsy value, not only True / False
-            stop = (lambda n, sids=sids: ("stop" if id(n) in sids else 0)) if stopset or start % 2 else None
+            stop = (lambda n, sids=sids: ("stop" if id(n) in sids else 0)) if sids or start % 2 else None
             for hidden in core.powerset(sub, maxhide):
                 hset = frozenset(hidden)
                 hids = frozenset(id(nodes[v]) for v in hidden)
@@ -121,5 +126,5 @@ def run(tier):
         "bounds": bounds,
     }
     return {"tally": t, "coverage": cov,
-            "guards": ("positional_calls", "capacity_checks", "nontrivial", "stop_pruned_inner_node", "filter_hid_inner_node_with_visible_child", "maxlevel_cut", "iterator_reuse_checks"),
+            "guards": ("stop_true_for_ancestors_of_start", "positional_calls", "capacity_checks", "nontrivial", "stop_pruned_inner_node", "filter_hid_inner_node_with_visible_child", "maxlevel_cut", "iterator_reuse_checks"),
             "assumptions": ["full stop x filter product up to 5 (6 thorough) nodes; beyond that subsets of bounded size"]}
